@@ -25,6 +25,8 @@ This package comprises simple utility functions for creating and parsing ARNs.
 import sys
 assert sys.version_info >= (3, 0)  # Bomb out if not running Python3
 
+import re
+
 
 def create_arn(
     resource="",
@@ -45,6 +47,20 @@ def create_arn(
         resource = resource_type + ":" + resource
     return "{}:{}:{}:{}:{}:{}".format(
         arn, partition, service, region, account, resource
+    )
+
+def valid_name(name):
+    """
+    True if name may be used as a State Machine or execution name. Names become
+    the trailing fields of ARNs, so in particular they must not contain the
+    ':' and '/' separators that parse_arn (and code that splits an execution
+    ARN to recover the State Machine ARN) treats specially.
+    """
+    return (
+        isinstance(name, str)
+        and len(name) > 0
+        and len(name) < 81
+        and not re.search(r"[ <>{}[\]?*\"#%\\^|~`$&,;:/]", name)
     )
 
 def parse_arn(arn):
